@@ -242,3 +242,4 @@ fn dyn_values(rng: &mut Rng, meta: &'static Metadata<'static>, vals: &[(usize, &
 
 include!("../c14/driver.rs");
 include!("../c14/main_body.rs");
+include!("../c14/conc_body.rs");
